@@ -1,2 +1,3 @@
 import OdfProps.C19
 import OdfProps.C18
+import OdfProps.C05
